@@ -162,13 +162,16 @@ func optionsFor(loader string, fs int, input string, salt int) (string, api.Tran
 
 // badMessage returns the first diagnostic that the property forbids
 func badMessage(errs, warns []api.Message) string {
+	// the forbidden forms are prefixes ("panic: ..." from the recover sites, "Internal error..." from the
+	// linker); a diagnostic that merely quotes such words from the input is not one
+	bad := func(t string) bool { return strings.HasPrefix(t, "panic:") || strings.HasPrefix(t, "Internal error") }
 	check := func(ms []api.Message) string {
 		for _, m := range ms {
-			if strings.HasPrefix(m.Text, "panic:") || strings.Contains(m.Text, "Internal error") || strings.Contains(m.Text, "internal error") {
+			if bad(m.Text) {
 				return m.Text
 			}
 			for _, n := range m.Notes {
-				if strings.HasPrefix(n.Text, "panic:") || strings.Contains(n.Text, "Internal error") {
+				if bad(n.Text) {
 					return m.Text + " | " + n.Text
 				}
 			}
